@@ -24,6 +24,8 @@
     pgen.assigntz <n0|N> <n1|N> <tzname|N>             _assign_tzname on a fold-0 datetime -> fold
     pgen.numtok <info> <year> <century> <fuzzy> <idx> <tok;tok;…> <classes of all tokens> <ymd v,v|century|d|m|y> <res.hour|->
                                                        _parse_numeric_token -> idx ; ymd ; hour minute second microsecond
+    pgen.loop <info> <year> <century> <fuzzy> <tok;tok;…> <classes>      the whole `while` loop of parser._parse from i = 0
+        -> tokens ; weekday hour minute second microsecond ampm tzname tzoffset ; ymd ; skipped
     pgen.naive <year|-> <month|-> <day|-> <weekday|-> <hour|-> <minute|-> <second|-> <microsecond|-> <default [7 ints]>
                                                        _build_naive -> Y M D h m s us
     pgen.step <info> <year> <century> <fuzzy> <i> <tok;tok;…> <classes> <ymd> <hour|-> <ampm|-> <tzname|N> <tzoffset|->
@@ -190,6 +192,13 @@ def handleFn (op : String) (args : List String) : Option String :=
     let t ← (parseIntList? dflt).bind DT.ofList?
     some (showR DT.wire (Gen.P.buildNaive Ops.ParserGen.dflt
       { year := y, month := m, day := d, weekday := wd, hour := hh, minute := mm, second := ss, microsecond := us } t))
+  | "pgen.loop", [info, y, c, fz, toks, classes] => withInfo info y c fun i => do
+    let l ← toks? toks
+    let cls := clsOfTable (mkTable l.flatten (if classes == "-" then "" else classes))
+    some (showR (fun r : List Token × Nat × Res × Ymd × List Nat =>
+        let rs := r.2.2.1
+        s!"{";".intercalate (r.1.map showCps)} ; {showON rs.weekday} {showON rs.hour} {showON rs.minute} {showON rs.second} {showON rs.microsecond} {showON rs.ampm} {showOptName rs.tzname} {showOI rs.tzoffset} ; {showYmd r.2.2.2.1} ; {",".intercalate (r.2.2.2.2.map toString)}")
+      (Gen.P.parseLoop (l.length + 1) cls i l 0 l.length {} {} [] (fz == "1")))
   | "pgen.assigntz", [n0, n1, name] => do
     let a ← optName? n0; let b ← optName? n1; let n ← optName? name
     some (showR (fun d : PPy.FoldDt => toString d.fold) (Gen.P.assignTzname dflt { n0 := a, n1 := b } n))
